@@ -28,6 +28,8 @@ class Analysis:
         self.F = F
         self.raw_params = {}      # fn -> set(param index)
         self.origin = {}          # (fn, idx) -> (caller fn, where, arg term)
+        self._ub_guard = set()
+        self.all_origins = {}     # (fn, idx) -> [every (caller fn, where, arg term) that passes an unbounded raw value]
         self.alarms = {}          # key -> dict
         self.unsafe_raw = {}      # key -> dict  (raw-derived unbounded value passed to an unsafe callee)
         self.analysed = {}        # fn -> frozenset raw params it was analysed with
@@ -181,6 +183,25 @@ class Analysis:
                 return True
             if op in ("Gt", "Ge", "Eq") and c == t0 and not self.israw(b, R, a):
                 return True
+        if t0[0] == "var":
+            # a reassigned local is bounded if each of its definitions is bounded where it is made (a definition that feeds on the
+            # local itself -- loop-carried -- is bounded by induction)
+            key = ("ub", id(b), t0[1])
+            if key in self._ub_guard:
+                return True
+            self._ub_guard.add(key)
+            try:
+                ds = [d for d in b.defs().get(t0[1], []) if d[2] in ("assign", "call")]
+                if ds and not (1 <= t0[1] <= b.nargs):
+                    ok = True
+                    for (bi, si, kind, payload) in ds:
+                        vt = b.term_of_rvalue(payload) if kind == "assign" else b.term_of_call(payload)
+                        if self.israw(b, R, vt) and not self.upper_bounded(b, R, bi, vt, None, depth + 1):
+                            ok = False
+                    if ok:
+                        return True
+            finally:
+                self._ub_guard.discard(key)
         if t0[0] == "bin" and t0[1] in ("Add", "Mul", "Shl", "BitOr"):
             return self.upper_bounded(b, R, block, t0[2], facts, depth + 1) and self.upper_bounded(b, R, block, t0[3], facts, depth + 1)
         if t0[0] == "bin" and t0[1] == "Sub":
@@ -284,6 +305,9 @@ class Analysis:
                 continue
             self.analysed[fn] = R
             for callee, idx, info in self.analyse(fn, R):
+                lst = self.all_origins.setdefault((callee, idx), [])
+                if info[0] not in [x[0] for x in lst]:
+                    lst.append(info)
                 cur = self.raw_params.setdefault(callee, set())
                 if idx not in cur:
                     cur.add(idx)
